@@ -919,6 +919,46 @@ fn main() {
                         }
                     }
                 }
+                // N31 (opt=serde-facts): the struct's `#[serde(rename = "..")]` / `#[serde(alias = "..")]` field attributes, which the extraction
+                // otherwise drops, are translated into spec constants — serde_derive's documented meaning: `rename` replaces the key that is
+                // WRITTEN and READ, each `alias` adds a key that is READ
+                let mut serde_facts = String::new();
+                if d.opts.iter().any(|o| o == "serde-facts") {
+                    if let syn::Item::Struct(st) = &it {
+                        let sname = st.ident.to_string();
+                        for f in st.fields.iter() {
+                            let Some(fid) = &f.ident else { continue };
+                            let fname = fid.to_string();
+                            let mut rename: Option<String> = None;
+                            let mut aliases: Vec<String> = vec![];
+                            let mut other = false;
+                            for a in &f.attrs {
+                                if a.path().is_ident("serde") {
+                                    let r = a.parse_nested_meta(|m| {
+                                        if m.path.is_ident("rename") { let v: syn::LitStr = m.value()?.parse()?; rename = Some(v.value()); }
+                                        else if m.path.is_ident("alias") { let v: syn::LitStr = m.value()?.parse()?; aliases.push(v.value()); }
+                                        else { other = true; if m.input.peek(syn::Token![=]) { let _: syn::Expr = m.value()?.parse()?; } }
+                                        Ok(())
+                                    });
+                                    if r.is_err() { other = true; }
+                                }
+                            }
+                            if other { problems.push(format!("{} {}: field {fname} carries a serde attribute other than rename / alias (not translated; anchor lost)", d.file, d.selector.join(" "))); }
+                            let written = rename.clone().unwrap_or_else(|| fname.clone());
+                            let mut reads: Vec<String> = vec![written.clone()];
+                            for al in &aliases { if !reads.contains(al) { reads.push(al.clone()); } }
+                            let ident_ok = |k: &str| !k.is_empty() && k.chars().all(|c| c.is_ascii_alphanumeric() || c == '_');
+                            serde_facts.push_str(&format!("/// serde keys of {sname}.{fname} (rule N31): written as \"{written}\", read from {reads:?}\n"));
+                            serde_facts.push_str(&format!("pub open spec fn serde_{sname}_{fname}_written_as_field_name() -> bool {{ {} }}\n", written == fname));
+                            serde_facts.push_str(&format!("pub open spec fn serde_{sname}_{fname}_reads_field_name() -> bool {{ {} }}\n", reads.contains(&fname)));
+                            serde_facts.push_str(&format!("pub open spec fn serde_{sname}_{fname}_read_key_count() -> int {{ {} }}\n", reads.len()));
+                            for k in &reads {
+                                if *k != fname && ident_ok(k) { serde_facts.push_str(&format!("pub open spec fn serde_{sname}_{fname}_reads_{k}() -> bool {{ true }}\n")); }
+                            }
+                        }
+                        n.rules.push(norm::RuleApp { rule: "N31".into(), line: span_lines(it.span()).0, note: format!("serde rename/alias field attributes of {sname} translated into spec constants") });
+                    }
+                }
                 norm::strip_item_attrs(&mut it);
                 {
                     let mut f = norm::FoldShl(0);
@@ -970,7 +1010,7 @@ fn main() {
                     }
                 }
                 let f = syn::File { shebang: None, attrs: vec![], items: vec![it] };
-                (prettyplease::unparse(&f), sp, 0, 0)
+                (format!("{}{}", prettyplease::unparse(&f), serde_facts), sp, 0, 0)
             }
             Found::Fn(mut f) => {
                 let sp = span_lines(f.span());
